@@ -21,7 +21,7 @@ use font_types::GlyphId16;
 use read_fonts::collections::IntSet;
 use std::collections::{BTreeMap, BTreeSet};
 use write_fonts::tables::gpos as wg;
-use write_fonts::tables::gpos::builders::{AnchorBuilder, MarkToBaseBuilder, PairPosBuilder, ValueRecordBuilder};
+use write_fonts::tables::gpos::builders::{AnchorBuilder, MarkToBaseBuilder, MarkToMarkBuilder, PairPosBuilder, ValueRecordBuilder};
 use write_fonts::tables::layout as wl;
 use write_fonts::tables::layout::builders::Builder;
 use write_fonts::tables::variations::ivs_builder::VariationStoreBuilder;
@@ -279,7 +279,24 @@ fn lk_case(s: &mut Session, c: &LkCase) {
             }
         }
     }
-    s.oracle("lk.split:pieces-in-place", seq == want, input, || format!("subtables after splitting {seq:?}, expected {want:?}"));
+    // the property: every split subtable is replaced AT ITS OWN POSITION by all of its pieces (the
+    // pieces of one subtable are disjoint in their first glyph / mark, so their mutual order is not
+    // semantics; the exact order is compared by the correspondence below)
+    let in_place = seq.len() == want.len() && {
+        let mut at = 0;
+        let mut ok = true;
+        for o in &c.offsets {
+            let n = ks[*o].max(1);
+            let mut got: Vec<&String> = seq[at..at + n].iter().collect();
+            let mut exp: Vec<&String> = want[at..at + n].iter().collect();
+            got.sort();
+            exp.sort();
+            ok &= got == exp;
+            at += n;
+        }
+        ok
+    };
+    s.oracle("lk.split:pieces-in-place", in_place, input, || format!("subtables after splitting {seq:?}, expected {want:?} (up to the order of the pieces of one subtable)"));
     let req = format!(
         "lk.split {ty} {} | {} | {} | {}",
         c.flag,
@@ -355,6 +372,29 @@ fn gen_sets(rng: &mut Rng, pool: &[u16]) -> Vec<Vec<u16>> {
     sets
 }
 
+/// pairwise disjoint classes: every rule fits the same subtable (many cells, repeated cells)
+fn gen_partition(rng: &mut Rng, pool: &[u16]) -> Vec<Vec<u16>> {
+    let mut p: Vec<u16> = pool.to_vec();
+    p.sort();
+    p.dedup();
+    rng.shuffle(&mut p);
+    let n = rng.range(1, 5) as usize;
+    let mut sets: Vec<Vec<u16>> = vec![vec![]; n];
+    for g in p {
+        if rng.chance(4, 5) {
+            sets[rng.below(n as u64) as usize].push(g);
+        }
+    }
+    for v in sets.iter_mut() {
+        v.sort();
+    }
+    sets.retain(|v| !v.is_empty());
+    if sets.is_empty() {
+        sets.push(vec![pool[0]]);
+    }
+    sets
+}
+
 fn class_expected(groups: &[Vec<&CRule>], g1: u16, g2: u16) -> Option<usize> {
     for grp in groups {
         if grp.iter().any(|r| r.c1.contains(&g1)) {
@@ -377,8 +417,9 @@ pub fn run_classpairs(cfg: &Config, s: &mut Session, rng: &mut Rng) {
             1 => (0..npool).map(|i| 65535 - 3 * i as u16).collect(),
             _ => (0..npool).map(|_| rng.next() as u16).collect(),
         };
-        let s1 = gen_sets(rng, &pool);
-        let s2 = gen_sets(rng, &pool);
+        let partition = rng.chance(1, 2);
+        let (s1, s2) = if partition { (gen_partition(rng, &pool), gen_partition(rng, &pool)) } else { (gen_sets(rng, &pool), gen_sets(rng, &pool)) };
+        s.count(if partition { "classpairs.build:gen:partition" } else { "classpairs.build:gen:overlapping" });
         let n = rng.range(1, 14) as usize;
         let uniform = rng.chance(1, 3);
         let mut rules: Vec<CRule> = vec![];
@@ -418,6 +459,7 @@ pub fn run_classpairs(cfg: &Config, s: &mut Session, rng: &mut Rng) {
             let mut vs = VariationStoreBuilder::new(2);
             b.build(&mut vs)
         });
+        s.oracle("classpairs.build:does-not-panic", built.is_ok(), || req_s.clone(), || built.as_ref().err().cloned().unwrap_or_default());
         let resp = match built {
             Err(_) => "trap".to_string(),
             Ok(subs) => {
@@ -519,6 +561,28 @@ pub fn run_classpairs(cfg: &Config, s: &mut Session, rng: &mut Rng) {
 // mb.build
 // ------------------------------------------------------------------------------------------
 
+/// model-independent reading of a built mark-attachment subtable against the inserts: the LAST
+/// insert of the mark gives class name + mark anchor, the LAST insert of (base, that class name) the
+/// base anchor; `mrecs` = (class id, mark anchor x), `rows` = base anchor x per class id
+fn reads_back(ops: &[(u8, u16, u64, usize)], mprobe: &[u16], bprobe: &[u16], mcov: &[u16], bcov: &[u16], mrecs: &[(u16, i32)], rows: &[Vec<Option<i32>>]) -> Option<String> {
+    for m in mprobe {
+        for bg in bprobe {
+            let want = ops.iter().rev().find(|o| o.0 == 0 && o.1 == *m).and_then(|mo| {
+                ops.iter().rev().find(|o| o.0 == 1 && o.1 == *bg && o.2 == mo.2).map(|bo| (mo.3 as i32, bo.3 as i32))
+            });
+            let got = mcov.iter().position(|g| g == m).zip(bcov.iter().position(|g| g == bg)).and_then(|(mi, bi)| {
+                let mr = mrecs.get(mi)?;
+                let a = (*rows.get(bi)?.get(mr.0 as usize)?)?;
+                Some((mr.1, a))
+            });
+            if got != want {
+                return Some(format!("(mark {m}, base {bg}): built subtable answers anchors {got:?}, the inserts say {want:?}"));
+            }
+        }
+    }
+    None
+}
+
 pub fn run_mb_build(cfg: &Config, s: &mut Session, rng: &mut Rng) {
     let n_cases = if cfg.thorough() { 3000 } else { 400 };
     for _ in 0..n_cases {
@@ -527,6 +591,10 @@ pub fn run_mb_build(cfg: &Config, s: &mut Session, rng: &mut Rng) {
         let n_names = rng.range(1, 4) as u64;
         let n = rng.range(1, 24) as usize;
         let mut b = MarkToBaseBuilder::default();
+        // the same calls go to a MarkToMarkBuilder (same MarkList, same anchor-matrix code shape)
+        let mut mm = MarkToMarkBuilder::default();
+        let mut mm_results: Vec<String> = vec![];
+        let mut mm_trapped = false;
         let mut ops: Vec<(u8, u16, u64, usize)> = vec![];
         let mut known: BTreeSet<u64> = BTreeSet::new();
         let mut results: Vec<String> = vec![];
@@ -544,6 +612,10 @@ pub fn run_mb_build(cfg: &Config, s: &mut Session, rng: &mut Rng) {
                 let g = *rng.pick(&marks);
                 known.insert(name);
                 ops.push((0, g, name, id));
+                match mm.insert_mark1(g16(g), &format!("c{name}"), anchor.clone()) {
+                    Ok(cid) => mm_results.push(format!("o{cid}")),
+                    Err(e) => mm_results.push(format!("e{}", e.class.trim_start_matches('c'))),
+                }
                 match b.insert_mark(g16(g), &format!("c{name}"), anchor) {
                     Ok(cid) => results.push(format!("o{cid}")),
                     Err(e) => results.push(format!("e{}", e.class.trim_start_matches('c'))),
@@ -551,6 +623,9 @@ pub fn run_mb_build(cfg: &Config, s: &mut Session, rng: &mut Rng) {
             } else {
                 let g = *rng.pick(&bases);
                 ops.push((1, g, name, id));
+                if catch(|| mm.insert_mark2(g16(g), &format!("c{name}"), anchor.clone())).is_err() {
+                    mm_trapped = true;
+                }
                 if catch(|| b.insert_base(g16(g), &format!("c{name}"), anchor)).is_err() {
                     trapped = true;
                     break;
@@ -569,6 +644,7 @@ pub fn run_mb_build(cfg: &Config, s: &mut Session, rng: &mut Rng) {
                 let mut vs = VariationStoreBuilder::new(2);
                 b.build(&mut vs)
             });
+            s.oracle("mb.build:build-does-not-panic", built.is_ok(), || req.clone(), || built.as_ref().err().cloned().unwrap_or_default());
             match built {
                 Err(_) => "trap".to_string(),
                 Ok(subs) => {
@@ -595,29 +671,16 @@ pub fn run_mb_build(cfg: &Config, s: &mut Session, rng: &mut Rng) {
                     // model-independent: last insert_mark of the mark, last insert_base of (base, class name)
                     let mcov: Vec<u16> = t.mark_coverage.iter().map(|g| g.to_u16()).collect();
                     let bcov: Vec<u16> = t.base_coverage.iter().map(|g| g.to_u16()).collect();
-                    let mut ok = true;
-                    let mut why = String::new();
                     let mut mprobe = marks.clone();
                     mprobe.push(9);
                     let mut bprobe = bases.clone();
                     bprobe.push(9);
-                    'o: for m in &mprobe {
-                        for bg in &bprobe {
-                            let want = ops.iter().rev().find(|o| o.0 == 0 && o.1 == *m).and_then(|mo| {
-                                ops.iter().rev().find(|o| o.0 == 1 && o.1 == *bg && o.2 == mo.2).map(|bo| (mo.3 as i32, bo.3 as i32))
-                            });
-                            let got = mcov.iter().position(|g| g == m).zip(bcov.iter().position(|g| g == bg)).and_then(|(mi, bi)| {
-                                let mr = t.mark_array.mark_records.get(mi)?;
-                                let a = t.base_array.base_records.get(bi)?.base_anchors.get(mr.mark_class as usize)?.as_ref()?;
-                                Some((ax(&mr.mark_anchor), ax(a)))
-                            });
-                            if got != want {
-                                ok = false;
-                                why = format!("(mark {m}, base {bg}): built subtable answers anchors {got:?}, the inserts say {want:?}");
-                                break 'o;
-                            }
-                        }
-                    }
+                    let mr: Vec<(u16, i32)> = t.mark_array.mark_records.iter().map(|r| (r.mark_class, ax(&r.mark_anchor))).collect();
+                    let rw: Vec<Vec<Option<i32>>> =
+                        t.base_array.base_records.iter().map(|r| r.base_anchors.iter().map(|a| a.as_ref().map(|a| ax(a))).collect()).collect();
+                    let why = reads_back(&ops, &mprobe, &bprobe, &mcov, &bcov, &mr, &rw);
+                    let ok = why.is_none();
+                    let why = why.unwrap_or_default();
                     s.oracle("mb.build:reads-back-last-inserts", ok, || req.clone(), || why.clone());
                     let classes = n_classes.unwrap_or(known.len());
                     format!(
@@ -631,6 +694,62 @@ pub fn run_mb_build(cfg: &Config, s: &mut Session, rng: &mut Rng) {
                 }
             }
         };
+        // MarkToMarkBuilder against the same model
+        let mm_resp = if mm_trapped {
+            "trap".to_string()
+        } else {
+            match catch(|| {
+                let mut vs = VariationStoreBuilder::new(2);
+                mm.build(&mut vs)
+            }) {
+                Err(_) => "trap".to_string(),
+                Ok(subs) => match subs.first() {
+                    None => "no-subtable".to_string(),
+                    Some(t) => {
+                        let ax = |a: &wg::AnchorTable| -> i32 {
+                            match a {
+                                wg::AnchorTable::Format1(a) => a.x_coordinate as i32,
+                                wg::AnchorTable::Format2(a) => a.x_coordinate as i32,
+                                wg::AnchorTable::Format3(a) => a.x_coordinate as i32,
+                            }
+                        };
+                        match (write_fonts::dump_table(&*t.mark1_coverage), write_fonts::dump_table(&*t.mark2_coverage)) {
+                            (Ok(mc), Ok(bc)) => {
+                                let mcov: Vec<u16> = t.mark1_coverage.iter().map(|g| g.to_u16()).collect();
+                                let bcov: Vec<u16> = t.mark2_coverage.iter().map(|g| g.to_u16()).collect();
+                                let mr: Vec<(u16, i32)> = t.mark1_array.mark_records.iter().map(|r| (r.mark_class, ax(&r.mark_anchor))).collect();
+                                let rw: Vec<Vec<Option<i32>>> =
+                                    t.mark2_array.mark2_records.iter().map(|r| r.mark2_anchors.iter().map(|a| a.as_ref().map(|a| ax(a))).collect()).collect();
+                                let mut mprobe = marks.clone();
+                                mprobe.push(9);
+                                let mut bprobe = bases.clone();
+                                bprobe.push(9);
+                                let why = reads_back(&ops, &mprobe, &bprobe, &mcov, &bcov, &mr, &rw);
+                                s.oracle("mm.build:reads-back-last-inserts", why.is_none(), || req.clone(), || why.clone().unwrap_or_default());
+                                let mrecs: Vec<i32> = t.mark1_array.mark_records.iter().flat_map(|r| [r.mark_class as i32, ax(&r.mark_anchor)]).collect();
+                                let rows: Vec<String> = t
+                                    .mark2_array
+                                    .mark2_records
+                                    .iter()
+                                    .map(|r| join(&r.mark2_anchors.iter().map(|a| a.as_ref().map(|a| ax(a)).unwrap_or(0)).collect::<Vec<_>>()))
+                                    .collect();
+                                let classes = t.mark2_array.mark2_records.first().map(|r| r.mark2_anchors.len()).unwrap_or(known.len());
+                                format!(
+                                    "{} ; {} ; {classes} ; {} ; {} | {}",
+                                    render_cov_bytes(&mc),
+                                    render_cov_bytes(&bc),
+                                    join(&mrecs),
+                                    rows.join(" , "),
+                                    if mm_results.is_empty() { "-".to_string() } else { mm_results.join(" ") }
+                                )
+                            }
+                            _ => "unwritable".to_string(),
+                        }
+                    }
+                },
+            }
+        };
+        s.case("mm.build", req.clone(), mm_resp);
         s.case("mb.build", req, resp);
     }
 }
@@ -650,10 +769,19 @@ struct MbP {
     mark_ids: Vec<u32>,
     /// content ids ≥ `dev_from` carry a device table
     dev_from: u32,
+    /// content ids ≥ `heavy_from` carry a ~250-byte device table (the anchors of the last base
+    /// record: whatever `get_class_info` does with an incomplete last chunk moves the estimate by KBs)
+    heavy_from: u32,
 }
 
-fn p_anchor(id: u32, dev_from: u32) -> wg::AnchorTable {
+fn p_anchor(id: u32, dev_from: u32, heavy_from: u32) -> wg::AnchorTable {
     let (x, y) = ((id % 30_000) as i16, (id / 30_000) as i16);
+    if id >= heavy_from {
+        // 8-bit deltas for 9..=255 ppem, distinct per anchor
+        let v: Vec<i8> = (0..247u32).map(|i| if i < 4 { ((id >> (7 * i)) & 0x7f) as i8 | 0x40 } else { (i % 100) as i8 + 10 }).collect();
+        let d = wl::Device::new(9, 255, &v);
+        return wg::AnchorTable::format_3(x, y, Some(d.into()), None);
+    }
     if id >= dev_from {
         // device content shared between some anchors (id % 5)
         let d = wl::Device::new(9, 10, &[(id % 5) as i8 + 1, 1]);
@@ -676,16 +804,25 @@ fn gen_mbp(rng: &mut Rng, s: &mut Session, thorough: bool) -> MbP {
     let null_mode = rng.below(3);
     let mut next = 1u32;
     let mut cells = vec![];
+    let tail_heavy = rng.chance(2, 5);
+    let mut heavy_from = u32::MAX;
     for b in 0..n_bases {
         let mut row = vec![];
+        if tail_heavy && b + 1 == n_bases {
+            heavy_from = next;
+        }
         for c in 0..classes {
             let null = match null_mode {
                 0 => rng.below(100) >= fill,
                 1 => fill < 100 && c * 100 >= classes * fill as usize, // the last classes have no anchors at all
                 _ => fill < 100 && (b + c) % 7 == 0,
             };
+            let null = null && !(tail_heavy && b + 1 == n_bases && c > 0);
             if null {
                 row.push(0);
+            } else if heavy_from != u32::MAX {
+                row.push(next);
+                next += 1;
             } else if share > 0 && rng.below(100) < share && next > 10 {
                 row.push(1 + rng.below(next as u64 - 1) as u32);
             } else {
@@ -697,26 +834,30 @@ fn gen_mbp(rng: &mut Rng, s: &mut Session, thorough: bool) -> MbP {
     }
     let mark_ids: Vec<u32> = (0..n_marks).map(|i| 500_000 + i as u32).collect();
     let dev_from = if rng.chance(1, 3) { next - next / 8 } else { u32::MAX };
+    if tail_heavy {
+        s.count("mb.points:gen:tail-heavy");
+    }
     s.count(&format!("mb.points:gen:fill{fill}:share{share}:nullmode{null_mode}:{}", if dev_from == u32::MAX { "nodev" } else { "dev" }));
     MbP {
-        name: format!("mbp{{classes={classes} marks={n_marks} bases={n_bases} fill={fill}% nullmode={null_mode} share={share}% dev_from={dev_from}}}"),
+        name: format!("mbp{{classes={classes} marks={n_marks} bases={n_bases} fill={fill}% nullmode={null_mode} share={share}% dev_from={dev_from} heavy_from={heavy_from}}}"),
         classes,
         marks,
         n_bases,
         cells,
         mark_ids,
         dev_from,
+        heavy_from,
     }
 }
 
 fn mbp_case(s: &mut Session, sc: &MbP) {
     let mcov: wl::CoverageTable = (0..sc.marks.len()).map(|i| g16(2000 + i as u16)).collect();
     let bcov: wl::CoverageTable = (0..sc.n_bases).map(|i| g16(10_000 + i as u16)).collect();
-    let marks = wg::MarkArray::new(sc.marks.iter().zip(&sc.mark_ids).map(|(c, id)| wg::MarkRecord::new(*c as u16, p_anchor(*id, u32::MAX))).collect());
+    let marks = wg::MarkArray::new(sc.marks.iter().zip(&sc.mark_ids).map(|(c, id)| wg::MarkRecord::new(*c as u16, p_anchor(*id, u32::MAX, u32::MAX))).collect());
     let base_array = wg::BaseArray::new(
         sc.cells
             .iter()
-            .map(|row| wg::BaseRecord::new(row.iter().map(|id| if *id == 0 { None } else { Some(p_anchor(*id, sc.dev_from)) }).collect()))
+            .map(|row| wg::BaseRecord::new(row.iter().map(|id| if *id == 0 { None } else { Some(p_anchor(*id, sc.dev_from, sc.heavy_from)) }).collect()))
             .collect(),
     );
     let sub = wg::MarkBasePosFormat1::new(mcov, bcov, marks, base_array);
